@@ -381,3 +381,50 @@ def r10_8(ctx):
 
     r07_1(ctx)
     r07_8(ctx)
+
+
+@rule("R10.9", "C10", "a truth value never reaches a bitvector position as it is: every operand of an arithmetic, bit, shift or comparison node has gone through a promotion or conversion (which turn an IL bool into ITE(b, 1, 0))", min_instances=20)
+def r10_9(ctx):
+    from sa.larkmodel import get_grammar, transformer_callbacks
+    from .c02 import NODE_BY_OPERATOR, binary_productions
+
+    idx = get_index(ctx.env)
+    gm = get_grammar(ctx.env)
+    cbs = transformer_callbacks(idx)
+    boolt = lambda n: mk_vt(n, False, 1, ("PURE", "BOOL"))
+
+    def converted(h):
+        return h.startswith(("Promo(", "Common(", "Conv("))
+
+    prods = [p for p in binary_productions(gm) if NODE_BY_OPERATOR.get(p[0], ("",))[0] in ("ArithmeticOp", "BitOp", "CompareOp") and p[1] in cbs]
+    ctx.need(len(prods) >= 16, f"only {len(prods)} bitvector-operand productions derived from the grammar")
+    for lit, cb, term in prods:
+        r = Runner(idx)
+        r.fold = False
+        fi, outs = r.run(cb, lambda: [r.pure("items[0]", vt=boolt("t0"), cls="CompareOp"), Tok(term, lit), r.pure("items[2]", vt=boolt("t2"), cls="CompareOp")])
+        good = [o for o in outs if o.kind != "raise"]
+        ctx.need(good, f"{cb}[{lit}] has no translating path for truth-valued operands")
+        for o in good:
+            v = o.value
+            a, b = lab(ctor(v, "a")), lab(ctor(v, "b"))
+            ctx.check(f"{cb}[{lit}] with two truth-valued operands", converted(a) and converted(b), "both operands promoted / converted", f"a={a}, b={b}", fn_where(idx, fi))
+    for lit in ("~", "-"):
+        r = Runner(idx)
+        r.fold = False
+        fi, outs = r.run("unary_expr", lambda: [Tok("UNARY_OP", lit), r.pure("items[1]", vt=boolt("t1"), cls="CompareOp")])
+        good = [o for o in outs if o.kind != "raise"]
+        ctx.need(good, f"unary_expr[{lit}] has no translating path for a truth-valued operand")
+        for o in good:
+            a = lab(ctor(o.value, "a"))
+            ctx.check(f"unary_expr[{lit}] with a truth-valued operand", converted(a), "operand promoted", f"a={a}", fn_where(idx, fi))
+    # compound assignment: the operator node of `x op= <truth value>`
+    for op in ("+=", "-=", "*=", "&=", "|=", "^=", "<<=", ">>=", "%=", "/="):
+        r = Runner(idx)
+        fi, outs = r.run("assignment_expr", lambda: [r.pure("items[0]", vt=mk_vt("t0", True, 32), cls="LocalVar"), Tok("ASSIGN_OP", op), r.pure("items[2]", vt=boolt("t2"), cls="CompareOp")])
+        good = [o for o in outs if o.kind != "raise"]
+        ctx.need(good, f"assignment_expr[{op}] has no translating path for a truth-valued source")
+        for o in good:
+            nodes = [e[2] for e in o.events if e[0] == "node" and e[1] in ("ArithmeticOp", "BitOp")]
+            ctx.need(nodes, f"assignment_expr[{op}]: operator node not found")
+            b = lab(ctor(nodes[-1], "b"))
+            ctx.check(f"assignment_expr[{op}] with a truth-valued source", converted(b), "source promoted / converted", f"b={b}", fn_where(idx, fi))
